@@ -519,7 +519,7 @@ def parse_authority(authority: bytes) -> list[Node]:
         )
     if not host:
         return out
-    if userinfo:
+    if b"@" in authority:
         offset += 1  # for the @
     host = unquote_to_bytes(host)
     if host.startswith(b"["):
